@@ -104,6 +104,21 @@ pub fn run(out: &mut Out, tier: &str, seed: u64) {
         for p in &cur { for a in &multi { let s = format!("{p}{a}"); one(out, &s); next.push(s); } }
         cur = next;
     }
+    // non-ASCII characters that Unicode relates to ASCII: every scalar whose lower- or upper-case mapping is pure
+    // ASCII (K = U+212A KELVIN SIGN, ſ, ı …, found by scanning all scalars), and full-width / compatibility forms
+    // of the name characters — none of them may be accepted or folded onto an ASCII name
+    {
+        let mut related: Vec<char> = (0x80u32..=0x10FFFF).filter_map(char::from_u32)
+            .filter(|c| c.to_lowercase().all(|x| x.is_ascii()) || c.to_uppercase().all(|x| x.is_ascii())).collect();
+        related.extend(['\u{FF21}', '\u{FF41}', '\u{FF10}', '\u{FF0D}', '\u{FF3F}', '\u{FF0E}', '\u{2010}', '\u{2024}', '\u{0130}', '\u{00DF}', '\u{FB01}', '\u{2160}', '\u{00B9}']);
+        out.notes.push(format!("case-related scalars found: {:?}", related.iter().take(8).collect::<Vec<_>>()));
+        for c in related {
+            for s in [format!("{c}"), format!("a{c}"), format!("{c}a"), format!("a{c}b"), format!("a-{c}"), format!("{c}-9"), format!("a_{c}.b"), format!("flas{c}"), format!("{c}{c}")] {
+                one(out, &s);
+                out.stat("c09.case_related_non_ascii");
+            }
+        }
+    }
     // random long names over a wider alphabet (mostly valid + hostile)
     let mut rng = Rng::new(seed);
     let wide: Vec<char> = "abcxyzABCXYZ0189---___...".chars().collect();
